@@ -756,12 +756,10 @@ theorem outside_domain (env : Env) (x : Val) (h : inDomainValues env x = false) 
           simp only [hmem, Option.map_some, Option.some.injEq] at hs
           subst hs
           simp [hmem] at hn
-    simp only [iteritems, itervalues, hm]
-    cases hmv : memberValue env c i with
-    | none => exact ⟨rfl, rfl⟩
-    | some v =>
-      trace_state
-      cases v <;> first | exact ⟨rfl, rfl⟩ | skip
+    -- the `match memberValue …` of the model falls through to its default row (simp discharges the
+    -- side condition of the match equation with `hv`)
+    simp only [iteritems, itervalues, hm, if_true]
+    exact ⟨trivial, trivial⟩
 
 /-- Conversely, TypeError at the call comes from a scalar only. -/
 theorem type_error_only_scalars (env : Env) (x : Val) (h : itervalues env x = .error .type) : isScalar x = true := by
